@@ -50,7 +50,7 @@ Fixpoint tree_events (c : oconfig) (n : anode) : list sev :=
       | Some ((_ :: _) as name) =>
           if self_closed n then [SOpen (tag_name c name) true]
           else SOpen (tag_name c name) false :: flat_map (tree_events c) ch ++ [SClose (tag_name c name)]
-      | _ => if truthy_l v then flat_map (tree_events c) ch else []
+      | _ => flat_map (tree_events c) ch
       end
   end.
 
@@ -556,10 +556,11 @@ Section Quiet.
     | _ =>
         match h_snippet node st with
         | Some st' => st'
-        | None => match an_value node with
-                  | Some ((_ :: _) as value) => h_next node O (an_children node) (push_tokens c value st)
-                  | _ => st
-                  end
+        | None => h_next node O (an_children node)
+                    (match an_value node with
+                     | Some ((_ :: _) as value) => push_tokens c value st
+                     | _ => st
+                     end)
         end
     end.
 
@@ -594,7 +595,7 @@ Section Quiet.
     | Some ((_ :: _) as name) =>
         if self_closed n then [SOpen (tag_name c name) true]
         else SOpen (tag_name c name) false :: flat_map (tree_events c) (an_children n) ++ [SClose (tag_name c name)]
-    | _ => if truthy_l (an_value n) then flat_map (tree_events c) (an_children n) else []
+    | _ => flat_map (tree_events c) (an_children n)
     end.
   Proof. destruct n; reflexivity. Qed.
 
@@ -724,12 +725,10 @@ Section Quiet.
     destruct (an_name n) as [[|n0 nm']|] eqn:En.
     - (* empty name: a text node *)
       destruct (h_snippet n st0) as [st'|] eqn:Es.
-      + pose proof (h_snippet_spec n st0 st' T HF Hval Es H0) as G.
-        assert (Tv : truthy_l (an_value n) = true).
-        { unfold h_snippet in Es. destruct (an_value n) as [[|? ?]|]; try discriminate. reflexivity. }
-        rewrite Tv. exact G.
-      + destruct (an_value n) as [[|t0 v0]|] eqn:Ev; cbn [truthy_l]; try (rewrite app_nil_r; exact H0).
-        apply h_next_spec; [exact HF|]. apply Q_push_tokens; [exact Hval|exact H0].
+      + exact (h_snippet_spec n st0 st' T HF Hval Es H0).
+      + apply h_next_spec; [exact HF|].
+        destruct (an_value n) as [[|t0 v0]|] eqn:Ev; try exact H0.
+        apply Q_push_tokens; [exact Hval|exact H0].
     - (* an element *)
       set (name := tag_name c (n0 :: nm')).
       assert (Nb : nocrlf name = true) by (unfold name; rewrite nocrlf_tag_name; exact Hnocrlf).
@@ -752,12 +751,10 @@ Section Quiet.
         * apply h_plain_spec; assumption.
     - (* no name *)
       destruct (h_snippet n st0) as [st'|] eqn:Es.
-      + pose proof (h_snippet_spec n st0 st' T HF Hval Es H0) as G.
-        assert (Tv : truthy_l (an_value n) = true).
-        { unfold h_snippet in Es. destruct (an_value n) as [[|? ?]|]; try discriminate. reflexivity. }
-        rewrite Tv. exact G.
-      + destruct (an_value n) as [[|t0 v0]|] eqn:Ev; cbn [truthy_l]; try (rewrite app_nil_r; exact H0).
-        apply h_next_spec; [exact HF|]. apply Q_push_tokens; [exact Hval|exact H0].
+      + exact (h_snippet_spec n st0 st' T HF Hval Es H0).
+      + apply h_next_spec; [exact HF|].
+        destruct (an_value n) as [[|t0 v0]|] eqn:Ev; try exact H0.
+        apply Q_push_tokens; [exact Hval|exact H0].
   Qed.
 
   (* ---------------------------------------------------------------- the whole abbreviation *)
